@@ -37,3 +37,46 @@ package util
 //@   pure
 //@   allocs <= 0
 //@   ensures result == len(set.elems)
+
+//@ func ByteLowercase
+//@   props C02 C04 C05 C15 C17
+//@   pure
+//@   allocs <= 1
+
+//@ func ByteUppercase
+//@   props C04 C05 C15 C17
+//@   pure
+//@   allocs <= 1
+
+//@ func SortedSet.Add
+//@   props C04 C05 C15 C17
+//@   trusted append followed by an in-place slices.Sort: permutation reasoning is outside the subset (bounded stand-in: DESIGN C15)
+//@   requires set != nil
+//@   assigns set.elems
+//@   assigns set.maxLen
+//@   assigns elems(set.elems)
+//@   ensures old(SetInv(deref(set))) ==> SetInv(deref(set))
+//@   ensures arr(set.elems) == old(arr(set.elems)) || isfresh(arr(set.elems))
+//@   ensures len(set.elems) >= 1
+//@   ensures forall x string :: Mem(deref(set), x) == (old(Mem(deref(set), x)) || x == e)
+
+//@ func Set.Add
+//@   props C04 C05 C15 C17
+//@   requires set != nil
+//@   assigns set.elems
+//@   assigns set.maxLen
+//@   assigns elems(set.elems)
+//@   ensures old(SetInv(deref(set))) ==> SetInv(deref(set))
+//@   ensures arr(set.elems) == old(arr(set.elems)) || isfresh(arr(set.elems))
+//@   ensures len(set.elems) >= 1
+//@   ensures forall x string :: Mem(deref(set), x) == (old(Mem(deref(set), x)) || x == e)
+
+//@ func SortedSet.ToSlice
+//@   props C04 C05 C06 C12 C17
+//@   allocs <= 1
+//@   ensures len(result) == len(set.elems)
+
+//@ func Set.ToSlice
+//@   props C04 C05 C06 C12 C17
+//@   allocs <= 1
+//@   ensures len(result) == len(set.elems)
